@@ -281,13 +281,53 @@ package client
 
 // splitMessage / splitArgs: what the senders need (C08); the splitting
 // contract proper is C11's.
+// indexFragment: -1, or a cut position inside s that leaves a non-empty head.
+// Deliberately nothing about *where* the cut falls: that is heuristic.
+//@ func indexFragment
+//@   property C11
+//@   safety C11
+//@   ensures result == -1 || (1 <= result && result <= len(s))
+//@   loop 0:
+//@     invariant max == -1 || (0 <= max && max + 2 <= len(s))
+//@ end
+
+// splitMessage: with L the effective limit, the pieces are consecutive
+// windows msg[cut[k]:cut[k+1]] of the text, every piece but the last carries
+// the "..." marker, no piece is longer than L, none is empty, and the last
+// window runs to the end of the text (so joining the windows gives msg back).
 //@ func splitMessage
 //@   property C11
 //@   safety C11
+//@   attr arith=checked
+//@   let L := splitLen < 13 ? 450 : splitLen
 //@   modifies elems(msgs)
 //@   ensures fresh(msgs) && len(msgs) >= 1
+//@   ensures len(cut) == len(msgs) && cut[0] == 0
+//@   ensures forall k int :: 0 <= k && k < len(msgs) - 1 ==>
+//@        cut[k] < cut[k+1] && cut[k+1] <= len(msg)
+//@        && len(msgs[k]) == cut[k+1] - cut[k] + 3 && len(msgs[k]) <= L
+//@        && msgs[k][:cut[k+1]-cut[k]] == msg[cut[k]:cut[k+1]]
+//@        && msgs[k][cut[k+1]-cut[k]:] == "..."
+//@   ensures 0 <= cut[len(msgs)-1] && cut[len(msgs)-1] <= len(msg)
+//@        && msgs[len(msgs)-1] == msg[cut[len(msgs)-1]:]
+//@        && len(msgs[len(msgs)-1]) <= L
+//@   ensures len(msgs) > 1 ==> len(msgs[len(msgs)-1]) > 0
+//@   ensures len(msgs) == 1 <==> len(msg) <= L
 //@   loop 0:
-//@     invariant true
+//@     ghost cut seq := [0]
+//@     invariant splitLen == L && splitLen >= 13
+//@     invariant len(cut) == len(msgs) + 1 && cut[0] == 0 && len(msgs) >= 0
+//@     invariant 0 <= cut[len(msgs)] && cut[len(msgs)] <= len(old(msg)) && msg === old(msg)[cut[len(msgs)]:]
+//@     invariant len(msgs) > 0 ==> len(msg) > 0 && len(old(msg)) > L
+//@     invariant (len(msgs) == 0 && cap(msgs) == 0) || fresh(msgs)
+//@     invariant len(msgs) == 0 ==> msg === old(msg)
+//@     invariant forall k int :: 0 <= k && k < len(msgs) ==>
+//@        cut[k] < cut[k+1] && cut[k+1] <= len(old(msg))
+//@        && len(msgs[k]) == cut[k+1] - cut[k] + 3 && len(msgs[k]) <= L
+//@        && msgs[k][:cut[k+1]-cut[k]] == old(msg)[cut[k]:cut[k+1]]
+//@        && msgs[k][cut[k+1]-cut[k]:] == "..."
+//@     step cut := cut ++ [cut[len(cut)-1] + idx]
+//@     decreases len(msg)
 //@ end
 
 //@ func splitArgs
@@ -398,3 +438,14 @@ package client
 //@ closure [C08,C09] field_access Conn.out in (*Conn).Raw, (*Conn).send, (*Conn).drainOut, (*Conn).initialise
 //@ closure [C10] callers (*Conn).rateLimit in (*Conn).write
 //@ closure [C08,C09,C10] callers (*Conn).write in (*Conn).send
+
+// ---------------------------------------------------------------------------
+// nick generator (C17)
+
+//@ func DefaultNewNick
+//@   property C17
+//@   safety C17
+//@   ensures len(old) == 0 ==> result == "_"
+//@   ensures len(old) > 0 ==> len(result) == len(old) && result[:len(old)-1] == old[:len(old)-1]
+//@        && result[len(old)-1] != old[len(old)-1]
+//@ end
